@@ -99,6 +99,7 @@ func cmdCheck(args []string) int {
 	noReplay := fs.Bool("no-replay", false, "")
 	only := fs.String("only", "", "run only jobs whose name contains this")
 	replayFile := fs.String("replay", "", "replay a stored counterexample natively")
+	tmo := fs.Int("timeout", 0, "give up exploring after this many seconds (remaining work is reported as inconclusive)")
 	var id string
 	if len(args) > 0 && !strings.HasPrefix(args[0], "-") {
 		id = args[0]
@@ -145,6 +146,9 @@ func cmdCheck(args []string) int {
 	}
 	ex := NewExplorer(prog, *workers)
 	ex.verbose = *verbose
+	if *tmo > 0 {
+		ex.deadline = time.Now().Add(time.Duration(*tmo) * time.Second)
+	}
 	if *tier == "thorough" {
 		ex.timeoutMs = 60000
 	}
@@ -162,7 +166,7 @@ func cmdCheck(args []string) int {
 	asserts, discharged := 0, 0
 	ignoredKinds := map[string]int{}
 	for _, j := range jobs {
-		if *verbose || len(jobs) <= 40 {
+		if *verbose || len(jobs) <= 40 || os.Getenv("GOSX_JOBS") != "" {
 			fmt.Fprintln(os.Stderr, j.summary())
 		}
 		for k, n := range j.paths {
@@ -510,9 +514,44 @@ func replayViolations(p *Program, id string, viol []*Violation, dir string) (int
 			_, fn := pkgRelOfHarness(v.Job["__harness"])
 			vecs = append(vecs, replayVec{Harness: fn, Vals: v.Vals, Job: v.Job, Label: v.Label, Kind: v.Kind, Site: v.Site, Msg: v.Msg})
 		}
-		res, out, err := runNative(p, dir, rel, vecs, strings.ReplaceAll(rel, "/", "_"))
-		if err != nil {
-			return n, err
+		// vectors expected to hang (or overflow the stack) run in their own process each,
+		// the others in one batch; anything left without an outcome is retried alone
+		res := map[int]string{}
+		out := ""
+		var batch []replayVec
+		var batchIdx []int
+		for k, v := range vecs {
+			if v.Kind == "hang" || v.Kind == "deadlock" || v.Kind == "spin" {
+				continue
+			}
+			batch = append(batch, v)
+			batchIdx = append(batchIdx, k)
+		}
+		tag := strings.ReplaceAll(rel, "/", "_")
+		if len(batch) > 0 {
+			r, o, err := runNative(p, dir, rel, batch, tag)
+			if err != nil {
+				return n, err
+			}
+			out = o
+			for bi, k := range batchIdx {
+				if s, ok := r[bi]; ok {
+					res[k] = s
+				}
+			}
+		}
+		for k, v := range vecs {
+			if _, ok := res[k]; ok {
+				continue
+			}
+			r, o, _ := runNative(p, dir, rel, []replayVec{v}, tag+"_single")
+			if s, ok := r[0]; ok {
+				res[k] = s
+			} else if strings.Contains(o, "stack overflow") || strings.Contains(o, "goroutine stack exceeds") {
+				res[k] = "hang stack overflow (unbounded recursion)"
+			} else {
+				out = o
+			}
 		}
 		for k, i := range idxs {
 			v := viol[i]
